@@ -238,10 +238,10 @@ def run(tier, seed):
         sc1 = edge_scenarios(edges)
         n1, s1, _ = mc.validate(sc1, wd, "edges", rep, 8)
         q = tier == "quick"
-        sc2 = api_scenarios(rng, 250 if q else 4000, 14 if q else 24)
+        sc2 = api_scenarios(rng, 250 if q else 16000, 14 if q else 24)
         n2, s2, _ = mc.validate(sc2, wd, "api", rep, 8 if q else 14)
-        sc3 = guest_scenarios(rng, 200 if q else 3000, 8 if q else 14)
-        sc3 += shrink_regrow_scenarios(rng, 120 if q else 2500)
+        sc3 = guest_scenarios(rng, 200 if q else 12000, 8 if q else 14)
+        sc3 += shrink_regrow_scenarios(rng, 120 if q else 10000)
         n3, s3, _ = mc.validate(sc3, wd, "guest", rep, 8 if q else 14)
         kinds = set()
         for s in sc1 + sc2 + sc3:
